@@ -758,10 +758,78 @@ class Unit:
                         edits.append(Edit(ls_, ls_, lambda r, before=before: split_hint(before)))
             # R21: ghost clock. Every `.await` outside select! lets an arbitrary amount of time pass
             if "r21" in opts:
+                nsel_ = sum(1 for m2 in it["macros"] if m2["path"] == "tokio::select")
+                tmo_j = 0
                 for aw in it.get("awaits", []):
                     as_, ae_ = aw["span"]; ab_s, ab_e = aw["base"]
                     ed = Edit(as_, ae_, None)
-                    ed.fn = (lambda r, ed=ed, ab_s=ab_s, ab_e=ab_e: "{ let aw__ = " + r.render_inside(ed, ab_s, ab_e) + ".await; clk__.elapse(); aw__ }")
+                    base_src = src[ab_s:ab_e].decode()
+                    if re.match(r"\s*tokio::time::timeout\s*\(", base_src):
+                        # `tokio::time::timeout(D, F).await`: a race between a timer armed here and F, like a two-armed select!
+                        site = nsel_ + tmo_j
+                        tmo_j += 1
+                        body_src = src[bs:be].decode()
+                        # a future stored in a local first (`let f = CALL; .. timeout(d, f).await`): async fn futures are lazy, so the
+                        # `let` is removed and CALL is awaited in place (no await lies between the two in the accepted shape)
+                        inlined = {}
+                        mfut = re.search(r",\s*(\w+)\s*,?\s*\)\s*$", base_src)
+                        if mfut:
+                            lets = list(re.finditer(r"let\s+(?:mut\s+)?" + re.escape(mfut.group(1)) + r"\s*=\s*(.+?);", src[bs:as_].decode(), re.S))
+                            if lets and ".await" not in src[bs + lets[-1].end():as_].decode():
+                                ls0 = bs + len(src[bs:as_].decode()[:lets[-1].start()].encode())
+                                le0 = bs + len(src[bs:as_].decode()[:lets[-1].end()].encode())
+                                edits.append(Edit(ls0, le0, lambda r: ""))
+                                inlined[mfut.group(1)] = lets[-1].group(1)
+                                self.log("R21", relfile, src, ls0, f"{path}: lazily evaluated future `{mfut.group(1)}` inlined at its await inside tokio::time::timeout")
+
+                        def ftmo(r, ed=ed, ab_s=ab_s, ab_e=ab_e, site=site, body_src=body_src, inlined=inlined):
+                            t = r.render_inside(ed, ab_s, ab_e).strip()
+                            inner = t[t.index("(") + 1:]
+                            depth_, cut, endp = 0, None, None
+                            for i_, ch in enumerate(inner):
+                                if ch in "([{":
+                                    depth_ += 1
+                                elif ch in ")]}":
+                                    if depth_ == 0:
+                                        endp = i_
+                                        break
+                                    depth_ -= 1
+                                elif ch == "," and depth_ == 0 and cut is None:
+                                    cut = i_
+                            if cut is None or endp is None or inner[endp + 1:].strip():
+                                raise Unsupported(f"{where}: cannot parse `{t[:80]}`")
+                            dur, fut = inner[:cut].strip(), inner[cut + 1:endp].strip().rstrip(",").strip()
+                            cancel = None
+                            callexpr = fut
+                            pre_drop = ""
+                            if fut in inlined:
+                                fut = inlined[fut].strip()
+                                callexpr = fut
+                            elif re.fullmatch(r"\w+", fut):
+                                md = re.search(r"let\s+(?:mut\s+)?" + re.escape(fut) + r"\s*=\s*(.+?);", body_src, re.S)
+                                if not md:
+                                    raise Unsupported(f"{where}: tokio::time::timeout over `{fut}`: no `let {fut} = ..;` found")
+                                callexpr = md.group(1)
+                                pre_drop = f"drop({fut}); "
+                            mc = re.match(r"(.+?)\.next_frame\(\s*(\w+)\s*,", callexpr, re.S)
+                            mg = re.fullmatch(r"(.+)\.(\w+)\(\s*\)", callexpr.strip(), re.S)
+                            if mc:
+                                cancel = f"{pre_drop}{mc.group(1).strip()}.cancelled_next_frame({mc.group(2)});"
+                            elif mg:
+                                # a method without arguments: its cancellation contract is the companion `cancelled_<method>` of the unit
+                                # (the method's own loop invariant); a unit without that companion does not compile (undecided)
+                                cancel = f"{pre_drop}{mg.group(1).strip()}.cancelled_{mg.group(2)}();"
+                            else:
+                                raise Unsupported(f"{where}: tokio::time::timeout over a future the clock model has no cancellation contract for: `{callexpr[:80]}`")
+                            th = "".join(parts.get(("timer", site), []))
+                            th = split_hint(th) if th.strip() else ""
+                            return ("{ let timer__t" + str(site) + " = clk__.timer_after(" + dur + "); if crate::shims_nondet::nondet() { " + cancel
+                                    + " clk__.fire(&timer__t" + str(site) + ");" + th + " Err(crate::shims::tokio::time::error::Elapsed::new()) } else { let aw__ = "
+                                    + fut + ".await; clk__.won_against(&timer__t" + str(site) + "); Ok(aw__) } }")
+                        ed.fn = ftmo
+                        self.log("R21", relfile, src, as_, f"{path}: tokio::time::timeout(..).await -> race between a timer armed here (timer site {site}) and the future")
+                    else:
+                        ed.fn = (lambda r, ed=ed, ab_s=ab_s, ab_e=ab_e: "{ let aw__ = " + r.render_inside(ed, ab_s, ab_e) + ".await; clk__.elapse(); aw__ }")
                     edits.append(ed)
                 self.log("R21", relfile, src, bs, f"{path}: ghost clock `clk__` declared at entry; {len(it.get('awaits', []))} await(s) followed by clk__.elapse(); Instant::now() -> clk__.now()")
             # entry
@@ -896,7 +964,8 @@ class Unit:
                     kind, k = key
                     nsel = sum(1 for m2 in it["macros"] if m2["path"] == "tokio::select")
                     lim = {"loop": len(it["loops"]), "loopstart": len(it["loops"]), "loopend": len(it["loops"]),
-                           "afterloop": len(it["loops"]), "beforeloop": len(it["loops"]), "timer": nsel,
+                           "afterloop": len(it["loops"]), "beforeloop": len(it["loops"]),
+                           "timer": nsel + sum(1 for aw in it.get("awaits", []) if re.match(rb"\s*tokio::time::timeout\s*\(", src[aw["base"][0]:aw["base"][1]])),
                            "async": len(it.get("async_blocks", [])), "asyncend": len(it.get("async_blocks", [])),
                            "exit": len(exits), "tryexit": len(it["tries"]),
                            "closure": len(it.get("closures", []))}[kind]
